@@ -317,3 +317,76 @@ def run_inspector_transparency(tier, log, seed):
         except mir.Unsupported as e:
             cx.inconcl.append(f"{name}: {e}")
     return cx.finish(detail)
+
+
+# ====================================================================================================================================
+# C28: the shipped gas inspector only observes (TracerEip3155 delegates its gas bookkeeping to it)
+def run_gas_inspector_observes(tier, log, seed):
+    text = mir.dump("revm", log)
+    funcs = mir.parse_functions(text)
+    cx = _Cx(log, "gas_inspector_differential")
+    detail = ("GasInspector::{initialize_interp, step, step_end}: no store through the interpreter or the context, no call that takes them mutably; call_end / create_end: the outcome "
+              "returned is the outcome given, changed at most by Gas::spend_all on outcome.result.gas and only when InstructionResult::is_error(outcome.result.result) - for an error "
+              "result the interpreter has spent all gas already, so this is the identity")
+    hooks = {h: [f for n, fl in funcs.items() for f in fl if re.match(r"^inspector::gas::<impl at [^>]*>::%s$" % h, n)] for h in ("initialize_interp", "step", "step_end", "call_end", "create_end")}
+    irf = _fields("crates/interpreter/src/interpreter.rs", "InterpreterResult") or _fields("crates/interpreter/src/interpreter_action.rs", "InterpreterResult")
+    for h in ("initialize_interp", "step", "step_end"):
+        name = f"GasInspector::{h}"
+        if len(hooks[h]) != 1:
+            cx.unrecognised(name, f"{len(hooks[h])} MIR bodies")
+            continue
+        fn = hooks[h][0]
+        rules = [(r"^Gas::(remaining|limit|spent|refunded)$", "tag:5"), (r"saturating_sub$", "tag:6")]
+        # any other call that receives the interpreter / context, or a mutable borrow into them, is an event
+        def other(callee, args, env, b, flow):
+            if re.search(r"(?:copy|move) _[23]\b", args) or any(re.match(r"^_\d+ = &mut \(\(\*_[23]\)", s_) for s_ in fn.blocks[b].stmts):
+                env["@touch"] = f"(+ {env['@touch']} 1)"
+            return None
+        rules.append((r".", other))
+        fl = mirflow.Flow(fn, rules, [], store_rules=[(r"^\(\(\*_[23]\)", "stores")], extra_cells=["@touch"])
+        try:
+            decls, asserts, cells, order, returns, out = fl.encode()
+            viol = "(or " + " ".join(f"(and on_{b} (not (and (= {out('@stores', b)} 0) (= {out('@touch', b)} 0))))" for b in returns) + ")"
+            cx.decide(name, decls, asserts, order, [], viol, [("return", "(or " + " ".join(f"on_{b}" for b in returns) + ")")], [],
+                      "the hook stores into the interpreter or the context, or hands them to something that may")
+        except mir.Unsupported as e:
+            cx.inconcl.append(f"{name}: {e}")
+    for h in ("call_end", "create_end"):
+        name = f"GasInspector::{h}"
+        if len(hooks[h]) != 1 or irf[:3] != ["result", "output", "gas"]:
+            cx.unrecognised(name, f"{len(hooks[h])} MIR bodies / InterpreterResult fields {irf}")
+            continue
+        fn = hooks[h][0]
+
+        def spend(callee, args, env, b, flow):
+            ml = re.match(r"^(?:move|copy) (_\d+)$", args.strip())
+            d = [s_ for blk in fn.blocks.values() for s_ in blk.stmts if ml and s_.startswith(ml.group(1) + " = ")]
+            good = len(d) == 1 and re.match(r"^_\d+ = &mut \(\(_4\.0: (\w+::)*InterpreterResult\)\.2: (\w+::)*Gas\)$", d[0]) is not None
+            env["@spends" if good else "@touch"] = f"(+ {env['@spends' if good else '@touch']} 1)"
+            return None
+
+        def other(callee, args, env, b, flow):
+            if re.search(r"(?:copy|move) _[24]\b", args) or any(re.match(r"^_\d+ = &mut \((\(\*_2\)|\(_4|_4)", s_) for s_ in fn.blocks[b].stmts):
+                env["@touch"] = f"(+ {env['@touch']} 1)"
+            return None
+        rules = [(r"^InstructionResult::is_error$", "record:iserr:1;free"), (r"^Gas::spend_all$", spend), (r".", other)]
+        consts = [(r"^copy \(\(_4\.0: (\w+::)*InterpreterResult\)\.0: (\w+::)*InstructionResult\)$", 41)]
+        fl = mirflow.Flow(fn, rules, consts, store_rules=[(r"^\(\(\*_2\)|^\(\(?_4", "stores")], extra_cells=["@touch", "@spends"])
+        try:
+            decls, asserts, cells, order, returns, out = fl.encode()
+            ie = _calls(fn, r"^InstructionResult::is_error$")
+            if len(ie) != 1:
+                cx.unrecognised(name, f"{len(ie)} tests of the outcome's result (expected exactly one is_error)")
+                continue
+            E = "r_" + ie[0][0]
+            per = []
+            for b in returns:
+                g = lambda c: out(c, b)
+                ok = f"(and (= {g('_0')} arg_4) (= {g('@iserr.0')} 41) (= {g('@stores')} 0) (= {g('@touch')} 0) (= {g('@spends')} (ite (= {E} 0) 0 1)))"
+                per.append(f"(and on_{b} (not {ok}))")
+            cx.decide(name, decls, asserts, order, [f"(or (= {E} 0) (= {E} 1))"], "(or " + " ".join(per) + ")",
+                      [("error outcome", "(or " + " ".join(f"(and on_{b} (= {out('@spends', b)} 1))" for b in returns) + ")"), ("other outcome", "(or " + " ".join(f"(and on_{b} (= {out('@spends', b)} 0))" for b in returns) + ")")],
+                      [E], "the outcome handed back is not the outcome given, or it is changed otherwise than by spend_all under is_error(result)")
+        except mir.Unsupported as e:
+            cx.inconcl.append(f"{name}: {e}")
+    return cx.finish(detail)
